@@ -5,9 +5,11 @@ import (
 	"encoding/base64"
 	"encoding/json"
 	"fmt"
+	"html"
 	"io"
 	"mime/quotedprintable"
 	"net/http"
+	"sort"
 	"strings"
 	"time"
 	"unicode/utf8"
@@ -64,24 +66,28 @@ func part(r *fw.Rand, ctype, body string) string {
 }
 
 // buildMIME returns the message source and its shape name.
-func buildMIME(r *fw.Rand, idx int, htmlBody, textBody string) ([]byte, string) {
+func buildMIME(r *fw.Rand, idx int, htmlBody, textBody string) ([]byte, string, []cidPart) {
 	hdr := fmt.Sprintf("From: Sender <sender@origin.test>\r\nTo: rcpt%d@inbucket.test\r\nSubject: c18 case %d\r\nMIME-Version: 1.0\r\n", idx, idx)
 	switch idx % 4 {
 	case 0:
-		return []byte(hdr + part(r, "text/html", htmlBody)), "html-only"
+		return []byte(hdr + part(r, "text/html", htmlBody)), "html-only", nil
 	case 1:
 		b := "b-" + r.Letters(12, "abcdef0123456789")
 		return []byte(hdr + "Content-Type: multipart/alternative; boundary=\"" + b + "\"\r\n\r\n--" + b + "\r\n" + part(r, "text/plain", textBody) +
-			"--" + b + "\r\n" + part(r, "text/html", htmlBody) + "--" + b + "--\r\n"), "alternative"
+			"--" + b + "\r\n" + part(r, "text/html", htmlBody) + "--" + b + "--\r\n"), "alternative", nil
 	case 2:
-		return []byte(hdr + part(r, "text/plain", textBody)), "text-only"
+		return []byte(hdr + part(r, "text/plain", textBody)), "text-only", nil
 	default:
+		if idx%8 == 7 {
+			// HTML body referring to sibling parts with hostile metadata (see cidparts.go)
+			return buildRelated(r, hdr, htmlBody, textBody)
+		}
 		b := "m-" + r.Letters(12, "abcdef0123456789")
 		a := "a-" + r.Letters(12, "abcdef0123456789")
 		return []byte(hdr + "Content-Type: multipart/mixed; boundary=\"" + b + "\"\r\n\r\n--" + b + "\r\n" +
 			"Content-Type: multipart/alternative; boundary=\"" + a + "\"\r\n\r\n--" + a + "\r\n" + part(r, "text/plain", textBody) +
 			"--" + a + "\r\n" + part(r, "text/html", htmlBody) + "--" + a + "--\r\n" +
-			"--" + b + "\r\nContent-Type: text/html; name=\"evil.html\"\r\nContent-Disposition: attachment; filename=\"evil.html\"\r\n\r\n<script>alert(1)</script>\r\n--" + b + "--\r\n"), "mixed"
+			"--" + b + "\r\nContent-Type: text/html; name=\"evil.html\"\r\nContent-Disposition: attachment; filename=\"evil.html\"\r\n\r\n<script>alert(1)</script>\r\n--" + b + "--\r\n"), "mixed", nil
 	}
 }
 
@@ -135,7 +141,7 @@ func runE2E(c *fw.Ctx) {
 			htmlBody = "<div style=\"" + strings.ReplaceAll(genCSS(r), `"`, "&quot;") + "\">" + pick(r, xssCorpus) + "</div>"
 		}
 		textBody := genPlainText(r)
-		src, shape := buildMIME(r, i, htmlBody, textBody)
+		src, shape, cparts := buildMIME(r, i, htmlBody, textBody)
 		addr := fmt.Sprintf("c18b%di%d@inbucket.test", c.Batch, i)
 		origin, err := env.Policy.ParseOrigin("sender@origin.test")
 		if err != nil {
@@ -181,6 +187,44 @@ func runE2E(c *fw.Ctx) {
 			return
 		}
 		inHTML, inText := msg.HTML(), msg.Text()
+		// Evidence for the related shape: what inbucket's own MIME parser made of the hostile
+		// metadata (counted, not judged: MIME decoding fidelity is C02).
+		relSig := ""
+		if len(cparts) > 0 {
+			seen := msg.Attachments()
+			t["e2e_rel_parts_sent"] += int64(len(cparts))
+			t["e2e_rel_parts_parsed"] += int64(len(seen))
+			if strings.Contains(inHTML, "cid:") {
+				t["e2e_rel_html_has_cid_ref"]++
+			}
+			markup, cidMarkup := false, false
+			for _, p := range seen {
+				if strings.ContainsAny(p.FileName, "\"'<>") {
+					t["e2e_rel_parsed_name_with_markup"]++
+					markup = true
+				}
+				if strings.Contains(p.FileName, "\"") && p.ContentID != "" && strings.Contains(inHTML, "cid:"+html.EscapeString(p.ContentID)) {
+					t["e2e_rel_quote_name_referenced"]++
+				}
+				if strings.ContainsAny(p.ContentID, "\"'<>") {
+					t["e2e_rel_parsed_cid_with_markup"]++
+					cidMarkup = true
+				}
+			}
+			encs := map[string]bool{}
+			for _, p := range cparts {
+				encs[p.enc] = true
+				for _, e := range strings.Split(p.enc, "+") {
+					t["e2e_rel_enc_"+e]++
+				}
+			}
+			ek := make([]string, 0, len(encs))
+			for k := range encs {
+				ek = append(ek, k)
+			}
+			sort.Strings(ek)
+			relSig = fmt.Sprintf("|rel:%d/%d,%v,%v,%s", len(cparts), len(seen), markup, cidMarkup, strings.Join(ek, ","))
+		}
 		var body []byte
 		status := 0
 		ok, dump = c.Within(60*time.Second, func() {
@@ -237,7 +281,10 @@ func runE2E(c *fw.Ctx) {
 				classes := inputClasses(inHTML)
 				if len(classes) > 0 || len(full.KeptProps) > 0 {
 					c.Unit()
-					c.NonTrivial("e2e|" + shape + "|" + strings.Join(classes, ","))
+					c.NonTrivial("e2e|" + shape + "|" + strings.Join(classes, ",") + relSig)
+				} else if relSig != "" {
+					c.Unit()
+					c.NonTrivial("e2e|" + shape + relSig)
 				}
 			}
 		} else if jm.HTML != "" {
